@@ -121,7 +121,7 @@ Emit(st, bytes, sid) ==
   ELSE LET s == st.segs[st.cur]
            n == Len(bytes) IN
        IF s.pc > 65535 \/ s.pc + n > 65536 THEN Err(st, [k |-> "range", sid |-> sid])
-       ELSE IF s.pc + s.toff < 0 \/ s.pc + s.toff + n > 65536 THEN Unspec(st)     \* a relocated segment pushed outside the address space
+       ELSE IF s.pc + s.toff < 0 \/ s.pc + s.toff + n > 65536 THEN Err(st, [k |-> "range", sid |-> sid])     \* a relocated segment pushed out of the address space on its target side
 
        ELSE LET mem2 == [a \in s.pc..(s.pc + n - 1) |-> bytes[a - s.pc + 1]] @@ s.mem IN
             [st EXCEPT !.segs[st.cur].mem = mem2, !.segs[st.cur].pc = s.pc + n,
@@ -307,11 +307,13 @@ WalkStmt(s, st, sigma, frozen, af, md) ==
           IF Len(d.params) # Len(s.args) THEN Err(st, [k |-> "arity", sid |-> s.sid])
           ELSE LET mscope == "$macro_" \o ToString(st.macroN)
                    s0 == Push([st EXCEPT !.macroN = @ + 1], mscope)
-                   (* arguments are evaluated in the scope of the call *)
+                   (* as coded (and as the by-hand expansion `{ .const p1 = (a1) .const p2 = (a2) body }' has it): the arguments are
+                      evaluated one by one inside the macro's scope, so an argument that mentions the name of a parameter
+                      denotes that parameter, not an outer symbol of the same name *)
                    B[i \in 0..Len(d.params)] ==
                      IF i = 0 THEN s0
                      ELSE LET p == B[i - 1]
-                              v == EvalE(s.args[i], [p EXCEPT !.scope = st.scope], sigma, frozen) IN
+                              v == EvalE(s.args[i], p, sigma, frozen) IN
                           IF v.k = "unres" THEN NoteUnresAt(p, v, frozen, s.sid)
                           ELSE IF v.k = "undef" THEN Unspec(p)
                           ELSE Define(p, d.params[i], v, FALSE)
